@@ -57,6 +57,18 @@ def library(n_small=2, n_big=3):
                           S("ga", "gather", ["c", "z1"], ["out"]), S("sink", "fwd", ["z2"], ["out2"])],
                   {"i1": [L(range(1, n_small + 1))], "i2": [L(range(11, 11 + n_small))]}, ["out", "out2"],
                   {"scatter-gather", "combinator", "two-outputs"}))
+    out.append(_d("cross", [S("s1", "scatter", ["i1"], ["a", "z1"]), S("s2", "scatter", ["i2"], ["b", "z2"]),
+                            S("x", "cart", ["a", "b"], ["a2", "b2"]), S("j", "fwd", ["a2", "b2"], ["c"]),
+                            S("m", "mul", ["z1", "z2"], ["zz"]), dict(S("ga", "gather", ["c", "zz"], ["out"]), depth=2)],
+                  {"i1": [L(range(1, n_small + 1))], "i2": [L(range(11, 11 + n_small))]}, ["out"],
+                  {"scatter-gather", "combinator", "cross-product"}))
+    out.append(_d("cross0", [S("s1", "scatter", ["i1"], ["a", "z1"]), S("s2", "scatter", ["i2"], ["b", "z2"]),
+                             S("x", "cart", ["a", "b"], ["a2", "b2"]), S("j", "fwd", ["a2", "b2"], ["c"]),
+                             S("m", "mul", ["z1", "z2"], ["zz"]), dict(S("ga", "gather", ["c", "zz"], ["out"]), depth=2)],
+                  {"i1": [L([4, 5])], "i2": [L([])]}, ["out"], {"scatter-gather", "combinator", "cross-product", "empty-scatter"}))
+    out.append(_d("sx0g", [S("sc", "scatter", ["in"], ["el", "sz"]), S("ex", "exec", ["el"], ["ex"]),
+                           S("ga", "gather", ["ex", "sz"], ["out"])],
+                  {"in": [L([])]}, ["out"], {"scatter-gather", "jobs", "empty-scatter", "deploy-lag"}))
     out.append(_d("deadend", [S("sc", "scatter", ["in"], ["el", "sz"]), S("f1", "fwd", ["el"], ["e2"]),
                               S("ga", "gather", ["e2", "sz"], ["out"]), S("dead", "fwd", ["sz"], ["nowhere"])],
                   {"in": [L([1, 2])]}, ["out"], {"scatter-gather", "dead-end"}))
